@@ -1046,6 +1046,10 @@ def all_schedules(scn, rng, cap):
 
         def choose(step, en):
             c = choices[step] if step < len(choices) else 0
+            if c >= len(en):
+                # the enabled steps are a function of the choices made so far only as long as the code under test
+                # behaves alike under every cutting of the bytes; a tree that drops a connection half way does not
+                c = len(en) - 1
             taken.append(c)
             return c
         srng = common.random.Random(rng.random())
